@@ -22,6 +22,7 @@ import (
 	"encoding/hex"
 	"encoding/json"
 	"fmt"
+	"io"
 	"math"
 	"math/big"
 	"sort"
@@ -145,7 +146,7 @@ func checkLayout(out []byte, unit byte, indent int) string {
 			continue
 		}
 		if inStr {
-			if c < 0x20 {
+			if c < 0x20 || c == 0x7f {
 				return fmt.Sprintf("raw control byte %#x inside a string at %d", c, i)
 			}
 			if c == '\\' {
@@ -808,6 +809,15 @@ func main() {
 			violate("esc:"+modeName, v, "raw ESC in uncoloured output of "+modeName, extra)
 			return nil, false
 		}
+		if !colored && !strings.HasPrefix(modeName, "cli:") {
+			// the library encoder writes no white space at all: no control byte may appear anywhere
+			for i, c := range out {
+				if c < 0x20 || c == 0x7f {
+					violate("control:"+modeName, v, fmt.Sprintf("raw control byte %#x at offset %d in the output of %s", c, i, modeName), extra)
+					return nil, false
+				}
+			}
+		}
 		if !json.Valid(plain) {
 			violate("invalid:"+modeName, v, "output of "+modeName+" is not valid JSON: "+clip(string(plain)), extra)
 			return nil, false
@@ -958,7 +968,7 @@ func main() {
 				}
 				orFlags.Cases++
 				args := append(m.flags(), ".")
-				so, se, code := cli.VerifC12Run(args, bytes.NewReader(mb))
+				so, se, code := runSafe(args, bytes.NewReader(mb))
 				chunks, _ := encodeSafe(v, m)
 				want := append(bytes.Join(chunks, nil), '\n')
 				distinctFlags[strings.Join(args, " ")+string(so)] = true
@@ -972,7 +982,7 @@ func main() {
 	// flag range
 	for _, bad := range [][]string{{"--indent", "10", "."}, {"--indent", "-1", "."}, {"--indent", "100", "."}} {
 		orFlags.Cases++
-		so, _, code := cli.VerifC12Run(bad, strings.NewReader("[1]"))
+		so, _, code := runSafe(bad, strings.NewReader("[1]"))
 		distinctFlags[strings.Join(bad, " ")] = true
 		if code == 0 || len(so) != 0 {
 			ctx.Violate("flags:range:"+bad[1], "gojq "+strings.Join(bad, " ")+" is accepted", map[string]any{"cmd": "echo '[1]' | gojq " + strings.Join(bad, " "), "stdout": string(so)})
@@ -1094,6 +1104,16 @@ func encodeSafe(v any, m mode) (chunks [][]byte, err error) {
 		}
 	}()
 	return cli.VerifC12EncodeChunks(v, m.indent, m.tab, m.color)
+}
+
+// runSafe runs the whole command in-process; a panic is reported as exit code -1 with the panic text on stderr.
+func runSafe(args []string, stdin io.Reader) (so, se []byte, code int) {
+	defer func() {
+		if r := recover(); r != nil {
+			so, se, code = nil, []byte(fmt.Sprint("PANIC ", r)), -1
+		}
+	}()
+	return cli.VerifC12Run(args, stdin)
 }
 
 func twiceSafe(a, b any, m mode) (o1, o2 []byte, err error) {
